@@ -362,9 +362,14 @@ fn l1_connect(rep: &Reporter, args: &Args) {
                     if allow && !reaches_canary {
                         continue; // allow=true is only the canary sanity run; unroutable ULAs take 3 s each
                     }
+                    // an address literal also reaches the connector as a *host name* (port-less authority of a non-CONNECT
+                    // request: `GET http://127.0.0.1/`): same policy, whichever way it is handed over
+                    let mut forms = vec![(literal(sp), "authority")];
+                    if let Dest::Address(a) = literal(sp) { forms.push((Dest::HostName(a.ip().to_string(), p4), "address literal handed over as a host name")); }
+                    for (dest, form) in forms {
                     let before = accepted.load(std::sync::atomic::Ordering::SeqCst);
-                    let dest = literal(sp);
-                    let is_name = matches!(dest, Dest::HostName(..));
+                    let is_name = matches!(dest, Dest::HostName(..)) && form == "authority";
+                    let via_resolver = matches!(dest, Dest::HostName(..));
                     let (r, connects) = match tokio::time::timeout(
                         std::time::Duration::from_secs(5),
                         connect_case(&ctx, dest.clone()),
@@ -380,9 +385,9 @@ fn l1_connect(rep: &Reporter, args: &Args) {
                     tokio::time::sleep(std::time::Duration::from_millis(2)).await;
                     let after = accepted.load(std::sync::atomic::Ordering::SeqCst);
                     rep.evals(1);
-                    rep.distinct(common::fnv(format!("{sp}|{allow}|{v6}").as_bytes()));
+                    rep.distinct(common::fnv(format!("{sp}|{allow}|{v6}|{form}").as_bytes()));
                     rep.tally(&format!("l1 allow={} outcome {}", allow, describe(&r).split('(').next().unwrap()), 1);
-                    let case = json!({"kind":"connect","spelling":sp,"allow_private":allow,"ipv6_available":v6,
+                    let case = json!({"kind":"connect","spelling":sp,"handed_over_as":form,"allow_private":allow,"ipv6_available":v6,
                         "result":describe(&r),"connects":connects.iter().map(|a|a.to_string()).collect::<Vec<_>>(),
                         "canary_accepts":after-before});
                     if rep.want_sample() && !allow {
@@ -404,13 +409,14 @@ fn l1_connect(rep: &Reporter, args: &Args) {
                                 &format!("connect spelling-class {} reached private destination", spelling_class(sp)),
                                 case.clone(),
                             );
-                        } else if !refused && !(is_name && !v6) {
+                        } else if !refused && !(via_resolver && !v6) {
                             // a literal private destination must be *reported* as a policy refusal
                             rep.violation(
                                 &format!("connect spelling-class {} not reported as 310/311", spelling_class(sp)),
                                 case.clone(),
                             );
                         }
+                    }
                     }
                 }
             }
